@@ -1,6 +1,7 @@
 package main
 
 import (
+	"errors"
 	"fmt"
 	"os"
 	"reflect"
@@ -466,8 +467,23 @@ func c16(run *ev.Run, tier string) {
 	// environment and the mapping disagree about that variable. Afterwards each
 	// leaf is either untouched or holds the mapping's value - never anything else.
 	// (also when the mapping has nothing for the variable: no fallback)
-	for _, mapped := range []string{"from-the-mapping", ""} {
-		os.Setenv("VERIF_LEAF", "from-the-process-environment")
+	// (and for names a process always knows something about: PWD, HOME, PATH ...)
+	cwd, _ := os.Getwd()
+	for _, combo := range [][2]string{{"VERIF_LEAF", "from-the-mapping"}, {"VERIF_LEAF", ""}, {"PWD", ""}, {"HOME", ""}, {"PATH", ""}, {"TMPDIR", ""}, {"USER", ""}, {"OLDPWD", ""}} {
+		leafVar, mapped := combo[0], combo[1]
+		prevVal, hadVal := os.LookupEnv(leafVar)
+		if leafVar == "VERIF_LEAF" {
+			os.Setenv("VERIF_LEAF", "from-the-process-environment")
+		}
+		forbidden := []string{"process-environment"}
+		if leafVar != "VERIF_LEAF" {
+			if hadVal && len(prevVal) > 3 {
+				forbidden = append(forbidden, prevVal)
+			}
+			if (leafVar == "PWD" || leafVar == "OLDPWD") && len(cwd) > 3 {
+				forbidden = append(forbidden, cwd)
+			}
+		}
 		c := fullConfig()
 		for _, e := range c.Contents {
 			e.Expand = true
@@ -502,7 +518,7 @@ func c16(run *ev.Run, tier string) {
 				}
 			case reflect.String:
 				if v.CanSet() {
-					v.SetString("$VERIF_LEAF")
+					v.SetString("$" + leafVar)
 					nleaves++
 				}
 			case reflect.Slice:
@@ -512,7 +528,7 @@ func c16(run *ev.Run, tier string) {
 			case reflect.Map:
 				for _, k := range v.MapKeys() {
 					if v.Type().Elem().Kind() == reflect.String {
-						v.SetMapIndex(k, reflect.ValueOf("$VERIF_LEAF"))
+						v.SetMapIndex(k, reflect.ValueOf("$"+leafVar))
 						nleaves++
 					} else {
 						setAll(v.MapIndex(k))
@@ -523,10 +539,10 @@ func c16(run *ev.Run, tier string) {
 		setAll(reflect.ValueOf(c))
 		c.Version = "1.0.0"
 		yb, _ := yaml.Marshal(c)
-		rec := newRecorder(map[string]string{"VERIF_LEAF": mapped}, "")
+		rec := newRecorder(map[string]string{leafVar: mapped}, "")
 		cfg, perr := nfpm.ParseWithEnvMapping(strings.NewReader(string(yb)), rec.get)
 		parses++
-		run.Case(fmt.Sprintf("mapping-only|%d string leaves|mapping says %q", nleaves, mapped), true)
+		run.Case(fmt.Sprintf("mapping-only|%d string leaves|$%s|mapping says %q", nleaves, leafVar, mapped), true)
 		if perr != nil {
 			if mapped != "" { // with every leaf empty the document may well be refused
 				run.Violate("C16/valid-document-rejected", map[string]any{"error": perr.Error(), "doc": "every string leaf = $VERIF_LEAF"})
@@ -549,8 +565,11 @@ func c16(run *ev.Run, tier string) {
 						}
 					}
 				case reflect.String:
-					if s := v.String(); strings.Contains(s, "process-environment") {
-						run.Violate("C16/expanded-from-process-environment-instead-of-mapping", map[string]any{"field": path, "value": s})
+					for _, bad := range forbidden {
+						if s := v.String(); strings.Contains(s, bad) {
+							run.Violate("C16/expanded-from-process-environment-instead-of-mapping", map[string]any{"field": path, "value": ev.Short(s, 120), "variable": leafVar, "mapping_says": mapped})
+							break
+						}
 					}
 				case reflect.Slice:
 					for i := 0; i < v.Len(); i++ {
@@ -564,7 +583,32 @@ func c16(run *ev.Run, tier string) {
 			}
 			walk(reflect.ValueOf(&cfg), "Config")
 		}
-		os.Unsetenv("VERIF_LEAF")
+		if leafVar == "VERIF_LEAF" {
+			os.Unsetenv("VERIF_LEAF")
+		}
+	}
+
+	// ---------------- part 3c: a reader that fails while the document is being read
+	// (every line boundary, where the part read so far is a valid document on its
+	// own): the parser reports the failure, it never accepts the truncated document
+	{
+		yb, _ := yaml.Marshal(fullConfig())
+		doc := string(yb)
+		cuts := 0
+		for i := 0; i < len(doc); i++ {
+			if doc[i] != '\n' || i+1 >= len(doc) {
+				continue
+			}
+			cuts++
+			fr := &failingReader{data: []byte(doc[:i+1]), err: errors.New("verif: read fault")}
+			_, err := nfpm.ParseWithEnvMapping(fr, func(string) string { return "" })
+			parses++
+			if err == nil {
+				run.Violate("C16/truncated-document-accepted-after-read-error", map[string]any{"bytes_delivered": i + 1, "document_bytes": len(doc), "last_line_delivered": ev.Short(doc[strings.LastIndex(doc[:i], "\n")+1:i], 120)})
+				break
+			}
+		}
+		run.Case(fmt.Sprintf("read-fault|%d cut points", cuts), true)
 	}
 
 	// ---------------- part 4: passphrase precedence, all 16 combinations. The
@@ -690,4 +734,19 @@ func firstDiffStrings(a, b reflect.Value, path string) string {
 		}
 	}
 	return ""
+}
+
+// failingReader delivers data and then fails with err (not io.EOF).
+type failingReader struct {
+	data []byte
+	err  error
+}
+
+func (r *failingReader) Read(p []byte) (int, error) {
+	if len(r.data) == 0 {
+		return 0, r.err
+	}
+	n := copy(p, r.data)
+	r.data = r.data[n:]
+	return n, nil
 }
